@@ -178,7 +178,8 @@ def env_noise(s, allow_faults=True, pfault=0.12):
         s.add(op="set", auto_write=0)
         s.pub()
         m = r.random()
-        if m < 0.3: s.add(op="wend", ec=r.choice(["reset", "broken_pipe", "eof"]))
+        if m < 0.12: s.add(op="wend", ec="ok", drop=1)               # reported written, lost with the connection
+        elif m < 0.3: s.add(op="wend", ec=r.choice(["reset", "broken_pipe", "eof"]))
         elif m < 0.6: s.add(op="wdeliver", nb=r.choice([1, 2, 5, 9])); s.add(op="wend", ec=r.choice(["reset", "timed_out"]))
         else: s.add(op="wdeliver"); s.add(op="wend", ec=r.choice(["ok", "reset"]))
         s.add(op="set", auto_write=1)
